@@ -227,6 +227,11 @@ func (s *ChunkStorage[T]) VerifyRemoteChunk(c Chunk[T]) (*warp.BitSetSignature, 
 
 	chunkCertInfo, ok := s.pendingChunkMap[c.id]
 	if ok {
+		// the chunk is already pending; it has no certificate yet if it was
+		// received from a peer or restored from disk (certificates are not persisted)
+		if chunkCertInfo.Cert == nil {
+			return nil, nil
+		}
 		return chunkCertInfo.Cert.Signature, nil
 	}
 	if err := s.verifier.Verify(c); err != nil {
